@@ -221,16 +221,39 @@ theorem probeOf_eq (t : Sec) (e e' : Entry) (hn : e'.name = e.name)
     (hs : e'.has Key.UnitSymbol = e.has Key.UnitSymbol) : probeOf t e' = probeOf t e := by
   cases t <;> simp [probeOf, unitKey, hn, hs]
 
-/-- editing a visible entry (key unchanged) leaves it visible -/
+theorem longKeys_modify (s : Schema) (t : Sec) (i : Nat) (f : Entry → Entry) (hf : ∀ e, (f e).name = e.name) :
+    longKeys ((s.modify t i f).sec .tags) = longKeys (s.sec .tags) := by
+  unfold longKeys
+  rw [modify_names s t .tags i f hf]
+
+/-- editing a visible entry (name and key unchanged) leaves it visible -/
 theorem visible_modify (s : Schema) (t : Sec) (i : Nat) (e : Entry) (f : Entry → Entry)
-    (he : (s.sec t)[i]? = some e) (hv : visibleAt s t i = true) (hp : probeOf t (f e) = probeOf t e) :
+    (he : (s.sec t)[i]? = some e) (hv : visibleAt s t i = true) (hf : ∀ e, (f e).name = e.name)
+    (hp : probeOf t (f e) = probeOf t e) :
     (i, f e) ∈ visible (s.modify t i f) t := by
+  simp only [visibleAt, he, Bool.and_eq_true, Bool.not_eq_true', Bool.and_eq_false_iff, decide_eq_false_iff_not] at hv
+  obtain ⟨hk, hsh⟩ := hv
+  have hmem : (i, f e) ∈ visG (regOf t) (probeOf t) ∅ 0 ((s.modify t i f).sec t) := by
+    rw [modify_sec_same, modifyAt_eq f he]
+    have hl := take_length_le he
+    have := mem_visG_mid (regOf t) (probeOf t) ((s.sec t).take i) ((s.sec t).drop (i + 1)) (f e)
+      (by rw [hp]; exact hk)
+    rwa [hl] at this
   unfold visible
-  rw [modify_sec_same, modifyAt_eq f he]
-  have hl := take_length_le he
-  have := mem_visG_mid (regOf t) (probeOf t) ((s.sec t).take i) ((s.sec t).drop (i + 1)) (f e)
-    (by simpa [visibleAt, he, hp] using hv)
-  rwa [hl] at this
+  by_cases ht : t = .tags
+  · simp only [ht, if_true]
+    rw [List.mem_filter]
+    subst ht
+    refine ⟨hmem, ?_⟩
+    rw [longKeys_modify s .tags i f hf]
+    rcases hsh with h1 | h1
+    · exact absurd rfl h1
+    · have h1' : shadowed (longKeys (s.sec .tags)) i e = false := h1
+      have : shadowed (longKeys (s.sec .tags)) i (f e) = false := by
+        simpa only [shadowed, hf e] using h1'
+      simp [this]
+  · simp only [ht, if_false]
+    exact hmem
 
 theorem has_withAttr_ne {a b : Str} (v : AttrVal) (e : Entry) (h : b ≠ a) :
     (withAttr a v e).has b = e.has b := by
@@ -406,11 +429,12 @@ theorem visibleAt_some {s : Schema} {t : Sec} {i : Nat} (h : visibleAt s t i = t
 selected checker flags it -/
 theorem attr_fault (env : Env) (s : Schema) (t : Sec) (i : Nat) (e : Entry) (f : Entry → Entry) (a : Str)
     (val : AttrVal) (v : V) (k : IK)
-    (he : (s.sec t)[i]? = some e) (hv : visibleAt s t i = true) (hp : probeOf t (f e) = probeOf t e)
+    (he : (s.sec t)[i]? = some e) (hv : visibleAt s t i = true) (hf : ∀ e, (f e).name = e.name)
+    (hp : probeOf t (f e) = probeOf t e)
     (ha : (a, val) ∈ (f e).attrs) (hval : v ∈ validatorsFor (s.modify t i f) a)
     (hk : k ∈ validate env (s.modify t i f) (tagCtx (s.modify t i f)) t (i, f e) a v) :
     (⟨k, sevWarning, t.label, (f e).name, a⟩ : Issue) ∈ check env (s.modify t i f) true :=
-  mem_check_attr env _ t (i, f e) a val v k (visible_modify s t i e f he hv hp) ha hval hk
+  mem_check_attr env _ t (i, f e) a val v k (visible_modify s t i e f he hv hf hp) ha hval hk
 
 theorem probe_withAttr (t : Sec) (a : Str) (v : AttrVal) (e : Entry) (h : Key.UnitSymbol ≠ a) :
     probeOf t (withAttr a v e) = probeOf t e :=
@@ -438,7 +462,7 @@ theorem fault_inLibrary_issue (env : Env) (s : Schema) (_hc : Compliant env s) (
   obtain ⟨hv, hl⟩ := h
   obtain ⟨e, he⟩ := visibleAt_some hv
   have hm := attr_fault env s t i e (withAttr Key.InLibrary (.text l)) Key.InLibrary (.text l) V.inLibrary
-    IK.inLibraryInvalid he hv (probe_withAttr t _ _ e (by decide)) (mem_setAttr _ _ _)
+    IK.inLibraryInvalid he hv (fun _ => rfl) (probe_withAttr t _ _ e (by decide)) (mem_setAttr _ _ _)
     (validators_fixed _ (by decide) (by decide))
     (by
       simp only [validate, vInLibrary, withAttr, getAttr_setAttr_self, modify_header]
@@ -453,7 +477,7 @@ theorem fault_allowedCharacter_issue (env : Env) (s : Schema) (_hc : Compliant e
   obtain ⟨e, he⟩ := visibleAt_some hv
   obtain ⟨v', hget, hmem⟩ := appendVal_spec Key.AllowedCharacter x e hx3
   have hm := attr_fault env s t i e (appendVal Key.AllowedCharacter x) Key.AllowedCharacter (.text v')
-    V.allowedCharacter IK.allowedCharactersInvalid he hv (probe_appendVal t _ _ e (by decide))
+    V.allowedCharacter IK.allowedCharactersInvalid he hv (fun e => appendVal_name _ _ e) (probe_appendVal t _ _ e (by decide))
     (mem_of_getAttr hget) (validators_fixed _ (by decide) (by decide))
     (by
       simp only [validate, vAllowedCharacter, hget]
@@ -468,7 +492,7 @@ theorem fault_conversionFactor_issue (env : Env) (s : Schema) (_hc : Compliant e
   obtain ⟨hv, hbad⟩ := h
   obtain ⟨e, he⟩ := visibleAt_some hv
   have hm := attr_fault env s t i e (withAttr Key.ConversionFactor (.text v)) Key.ConversionFactor (.text v)
-    V.conversionFactor IK.conversionFactorNotPositive he hv (probe_withAttr t _ _ e (by decide)) (mem_setAttr _ _ _)
+    V.conversionFactor IK.conversionFactorNotPositive he hv (fun _ => rfl) (probe_withAttr t _ _ e (by decide)) (mem_setAttr _ _ _)
     (validators_fixed _ (by decide) (by decide))
     (by
       simp only [validate, vConversionFactor, withAttr, getAttr_setAttr_self]
@@ -487,7 +511,7 @@ theorem fault_classAttr_issue (env : Env) (s : Schema) (_hc : Compliant env s) (
   have hsel : V.placeholder ∈ validatorsFor (s.modify .tags i (withAttr c.key v)) c.key := by
     cases c <;> exact validators_fixed _ (by decide) (by decide)
   have hm := attr_fault env s .tags i e (withAttr c.key v) c.key v
-    V.placeholder IK.nonPlaceholderHasClass he hv (probe_withAttr .tags _ _ e (by cases c <;> decide)) (mem_setAttr _ _ _)
+    V.placeholder IK.nonPlaceholderHasClass he hv (fun _ => rfl) (probe_withAttr .tags _ _ e (by cases c <;> decide)) (mem_setAttr _ _ _)
     hsel
     (by
       simp only [validate, vPlaceholder, withAttr_name]
@@ -505,7 +529,7 @@ theorem fault_undeclared_issue (env : Env) (s : Schema) (_hc : Compliant env s) 
     · have h1 : t ≠ .units := by simpa using h1
       cases t <;> simp_all [probeOf]
     · exact probe_withAttr t _ _ e (by simpa using (fun h : Key.UnitSymbol = a => h1 h.symm))
-  have hvis := visible_modify s t i e (withAttr a .flag) he hv hp
+  have hvis := visible_modify s t i e (withAttr a .flag) he hv (fun _ => rfl) hp
   have hm := mem_check_unknown env (s.modify t i (withAttr a .flag)) w t (i, withAttr a .flag e) a .flag hvis
     (mem_setAttr _ _ _) hu
   exact ⟨_, hm, rfl, rfl⟩
@@ -532,7 +556,7 @@ theorem fault_deprecatedFrom_issue (env : Env) (s : Schema) (_hc : Compliant env
   have hget := modifyAt_get (withAttr Key.DeprecatedFrom (.text v)) he
   simp only [seed, modify_sec_same, hget] at hbad
   have hm := attr_fault env s t i e (withAttr Key.DeprecatedFrom (.text v)) Key.DeprecatedFrom (.text v)
-    V.deprecatedFrom IK.deprecatedInvalid he hv (probe_withAttr t _ _ e (by decide)) (mem_setAttr _ _ _)
+    V.deprecatedFrom IK.deprecatedInvalid he hv (fun _ => rfl) (probe_withAttr t _ _ e (by decide)) (mem_setAttr _ _ _)
     (validators_fixed _ (by decide) (by decide))
     (by
       simp only [validate, vDeprecatedFrom]
@@ -554,7 +578,7 @@ theorem fault_hedId_issue (env : Env) (s : Schema) (_hc : Compliant env s) (t : 
   have hg' : gen83 (s.modify t i (withAttr Key.HedID (.text v))) = true := by
     rw [gen83_modify s t i (withAttr Key.HedID (.text v)) (fun _ => rfl)]; exact hg
   have hm := attr_fault env s t i e (withAttr Key.HedID (.text v)) Key.HedID (.text v)
-    V.hedId IK.hedIdInvalid he hv (probe_withAttr t _ _ e (by decide)) (mem_setAttr _ _ _)
+    V.hedId IK.hedIdInvalid he hv (fun _ => rfl) (probe_withAttr t _ _ e (by decide)) (mem_setAttr _ _ _)
     (validators_hedId _ hg')
     (by
       simp only [validate, vHedId]
@@ -573,6 +597,7 @@ theorem modifiersOf_modify (s : Schema) {t : Sec} (i : Nat) (f : Entry → Entry
     modifiersOf (s.modify t i f) = modifiersOf s := by
   unfold modifiersOf visible
   rw [modify_sec_ne s i f h]
+  simp
 
 theorem fault_defaultUnits_issue (env : Env) (s : Schema) (hc : Compliant env s) (i : Nat) (u : Str)
     (h : admissible env (.defaultUnits i u) s = true) :
@@ -596,7 +621,7 @@ theorem fault_defaultUnits_issue (env : Env) (s : Schema) (hc : Compliant env s)
     rw [modify_sec_ne s i _ (by decide)]
     exact this
   have hm := attr_fault env s .unitClasses i e f Key.DefaultUnits (.text u)
-    V.unitExists IK.defaultUnitsInvalid he hv (probe_withAttr _ _ _ e (by decide)) (mem_setAttr _ _ _) hsel
+    V.unitExists IK.defaultUnitsInvalid he hv (fun _ => rfl) (probe_withAttr _ _ _ e (by decide)) (mem_setAttr _ _ _) hsel
     (by
       simp only [validate, vUnitExists, f, withAttr, getAttr_setAttr_self]
       rw [modify_sec_ne s i _ (by decide), modifiersOf_modify s i _ (by decide)]
@@ -642,7 +667,7 @@ theorem fault_missingRef_issue (env : Env) (s : Schema) (hc : Compliant env s) (
         simp only [stdRanges, hg, Bool.not_true, Bool.false_or, Bool.and_eq_true] at hstd
         exact hstd.1.2)) (by decide)
   have hm := attr_fault env s .tags i e (appendVal r.key x) r.key (.text v')
-    (V.itemExists r.target) IK.genericValueInvalid he hv
+    (V.itemExists r.target) IK.genericValueInvalid he hv hnames
     (probe_appendVal .tags _ _ e (by cases r <;> decide)) (mem_of_getAttr hget) hsel
     (by
       simp only [validate, vItemExists, hget]
@@ -1050,8 +1075,8 @@ example : Compliant tinyEnv tiny ∧ admissible tinyEnv (.inLibrary .valueClasse
     simp [check, tiny, tinyEnv, secOrder, secIssues, visible, visG, charIssues, attrIssues, entryIssues,
       unknownIssues, unknownAttrs, dupIssues, dupKinds, dupPairs, dupG, dedupKeys, prereleaseIssues, prologueIssues,
       stdRanges, gen83, findByName, hasOf, attrOf, getAttr, filterW, nameKinds, descKinds, probeOf, regOf,
-      h1, h2, h3, h4, h5, knownVersions, TagCtx.inhVal, tagCtx, mkTagCtx, inheritable, isDigit, isUpper, uniClass]
+      h1, h2, h3, h4, h5, knownVersions, shadowed, longKeys, TagCtx.inhVal, tagCtx, mkTagCtx, inheritable, isDigit, isUpper, uniClass]
   · simp [admissible, visibleAt, tiny, keysG, probeOf, h2]
-  · simp [admissible, visibleAt, tiny, keysG, probeOf, h6]
+  · simp [admissible, visibleAt, tiny, keysG, probeOf, h6, shadowed, longKeys]
 
 end HedVerif.C14
